@@ -48,6 +48,9 @@ class UidLog:
         self.removed: dict[tuple[int, int], list[tuple[int, int]]] = {}
         # (lineage, validity) -> [(uid, step the selection began, dump step)]
         self.fresh_seen: dict[tuple[int, int], list[tuple[int, int, int]]] = {}
+        # lineages that an APPEND/COPY/MOVE without a tagged reply may have
+        # added to (the UIDs it assigned are unknown)
+        self.unacked_into: set[int] = set()
 
     def count(self, k: str, n: int = 1) -> None:
         self.counters[k] = self.counters.get(k, 0) + n
@@ -114,7 +117,15 @@ class UidLog:
             for (l2, val), lst in self.assign.items():
                 if l2 != lin:
                     continue
-                uids = [a[2] for a in lst if a[3] == cid]
+                # the delivered message itself, not the copies that COPY/MOVE
+                # made of it later (their UIDs are the ones COPYUID reported)
+                if l2 in self.unacked_into:
+                    self.count('delivery_checks_skipped_unacked_copy')
+                    continue
+                copies = {a[2] for a in lst
+                          if a[4] in ('APPENDUID', 'COPYUID')}
+                uids = [a[2] for a in lst
+                        if a[3] == cid and a[2] not in copies]
                 if not uids:
                     continue
                 u = min(uids)
@@ -189,6 +200,8 @@ async def do_append(s: USession, box: bytes) -> None:
     cids_before = s.hist.ncid
     r = await s.append(box, [s.rng.choice(FLAGS)]
                        if s.rng.random() < 0.3 else None, n=n)
+    if r.tagged is None:
+        s.ulog.unacked_into.add(s.ulog.lin(box))
     if r.ok and r.tagged is not None and r.tagged.code == b'APPENDUID' \
             and isinstance(r.tagged.data, tuple):
         val, uids = r.tagged.data
@@ -203,6 +216,8 @@ async def do_copy(s: USession, dest: bytes, move: bool) -> None:
     sset, uid = s._pick_seqset()
     src = s.shadow.mailbox or b'INBOX'
     r = await s.copy(sset, dest, uid=uid, move=move)
+    if r.tagged is None:
+        s.ulog.unacked_into.add(s.ulog.lin(dest))
     for x in [r.tagged] + list(r.untagged):
         if x is not None and x.code == b'COPYUID' and \
                 isinstance(x.data, tuple) and r.ok:
